@@ -78,7 +78,19 @@ def stop_oracle(r):
     return None
 
 
+E_KEY = 'C17-E-next-round-put-before-round-consumed'
+
+
 def early_oracle(r):
+    v = _early_oracle(r)
+    if v is None:
+        return None
+    # the next round's suppliers started before this round's consumer had finished: known finding E
+    eb = r['cfg'].get('early_before') or []
+    return (v[0], E_KEY if any(eb[:-1]) else None)
+
+
+def _early_oracle(r):
     if r['verdict'] == 'replay-divergence':
         return None
     cfg = r['cfg']
